@@ -47,6 +47,16 @@ struct Case {
     path: String,
     params: Vec<Param>,
     defs: Vec<(String, Ps)>,
+    /// a history: this many harmless endpoints (unpublished, parameterless,
+    /// on paths no generated template can touch) are registered on the same
+    /// ApiDescription first; the validators must treat the probed declaration
+    /// as they would on an empty description
+    #[serde(default)]
+    prefix: u8,
+}
+
+async fn plain_handler(_rqctx: RequestContext<()>) -> Result<HttpResponseOk<()>, HttpError> {
+    Ok(HttpResponseOk(()))
 }
 
 fn ity_code(t: &str) -> u8 {
@@ -169,6 +179,18 @@ fn exec(c: &Case, seed: u64) -> Line {
         set_slot(1, Slot { name: "Q".into(), schema: serde_json::from_value(s1.clone()).unwrap(), defs: defs.clone(), referenceable: false });
         let mut api: ApiDescription<()> =
             ApiDescription::new().tag_config(TagConfig { allow_other_tags: c.allow_other, policy, tags: known });
+        for k in 0..c.prefix {
+            let pre = ApiEndpoint::new(
+                format!("pre{}", k),
+                plain_handler,
+                if k % 2 == 0 { Method::PUT } else { Method::GET },
+                "application/json",
+                &format!("/zz-pre/{}", k),
+                ApiEndpointVersions::All,
+            )
+            .visible(false);
+            api.register(pre).expect("harmless prefix endpoint");
+        }
         let mut ep = ApiEndpoint::new(
             "op".to_string(),
             handler,
@@ -200,7 +222,7 @@ fn exec(c: &Case, seed: u64) -> Line {
         g_list(&c.defs, |(n, p)| format!("({}, {})", g_str(n), g_ps(p))),
         code
     );
-    let mut tags = vec![format!("code:{}", code), format!("params:{}", c.params.len())];
+    let mut tags = vec![format!("code:{}", code), format!("params:{}", c.params.len()), format!("registered-before:{}", c.prefix)];
     if !c.defs.is_empty() {
         tags.push("with-defs".into());
     }
@@ -363,6 +385,8 @@ fn gen_case(rng: &mut Rng) -> Case {
         path,
         params,
         defs,
+        // half of the declarations are probed on a description that already holds 1, 2, 9 or 33 endpoints
+        prefix: if rng.chance(1, 2) { 0 } else { *rng.pick(&[1u8, 2, 9, 33]) },
     }
 }
 
